@@ -452,6 +452,7 @@ func c18(c *Ctx) (*report.Result, error) {
 	}
 	if f := resolve(c, res, "O18.5", anchor{"proto/compat", "", "convertAndRepairInvalidUTF8"}); f != nil {
 		checkConvertAndRepairIdentity(c, res, f)
+		checkConversionLookups(c, res, f, "O18.3")
 	}
 
 	res.Explanation = fmt.Sprintf("Translation validation of the generated visitor proto/compat.RepairInvalidUTF8 (1 program, %d root cases) against the schema it was generated for: side A enumerates, from the proto/1_22 Go struct types, every structural path from each of the %d legacy root types of the conversion tables (read from adminConvertTo122 / frontendConvertTo122) to a *failure.Failure (%d roots have such paths, %d paths); side B abstractly interprets the generated code (getter assignment, range, oneof type switch, wrapper field read, guarded repair call; any other statement fails) and yields the set of paths on which repairInvalidUTF8InFailure is called and folded into the result. A subset of B fails O18.1, B minus A fails O18.2. The hand-written chain repair and the codec's repair entry are checked on SSA.", len(gen), len(roots), withFail, totalA)
@@ -719,4 +720,27 @@ func messageOf(v ssa.Value, link ssa.Value) bool {
 		return messageOf(cv.X, link)
 	}
 	return false
+}
+
+// checkConversionLookups: both conversion tables are consulted with the message that is being decoded (the
+// function's own parameter), the frontend table exactly when the admin table had no entry, and failure is reported
+// only when neither has one. A lookup with another value (e.g. the nil result of the first lookup) makes every type
+// of that table "unconvertible", i.e. unrepairable.
+func checkConversionLookups(c *Ctx, res *report.Result, f *ssa.Function, rule string) {
+	if len(f.Params) < 2 {
+		return
+	}
+	msg := ssa.Value(f.Params[1])
+	n := 0
+	for _, tbl := range []string{"adminConvertTo122", "frontendConvertTo122"} {
+		calls := flow.FindCalls(f, func(cc *ssa.CallCommon) bool { return flow.IsCallTo(cc, compatPkg, "", tbl) })
+		if len(calls) != 1 {
+			res.Undec(rule, "convertAndRepairInvalidUTF8: lookup in "+tbl, fnPos(c.Prog, f), fmt.Sprintf("%d calls", len(calls)))
+			continue
+		}
+		n++
+		arg := flow.Strip(flow.ResolveLoad(calls[0].Common().Args[0]))
+		res.Check(arg == msg, rule, "convertAndRepairInvalidUTF8: "+tbl+" is consulted with the message being decoded", instrPos(c.Prog, calls[0]), "argument = the function's message parameter", "the table is consulted with "+flow.Describe(arg)+" instead of the message being decoded: no type of this table is ever found, so invalid UTF-8 in any message of those types is never repaired")
+	}
+	_ = n
 }
